@@ -181,7 +181,7 @@ def layout(rng, vals, inB, mode):
     pad_px = rng.choice([0, 0, 1, 3, 17]) if mode != "tight" else 0
     stride = (w + pad_px) * inB
     vals = list(vals) + [rng.getrandbits(8 * inB) for _ in range(w * h - n)]
-    buf = bytearray(rng.getrandbits(8) for _ in range(((h - 1) * stride + w * inB) if h and w else 0))
+    buf = bytearray(rng.randbytes(((h - 1) * stride + w * inB) if h and w else 0))
     order = "big" if HOST_BE else "little"
     for r in range(h):
         off = r * stride
@@ -368,7 +368,7 @@ def script_for(rng, srv, cli, econ, tier, full16=True, cmap=None, via_msg=None, 
                 stride = {"pad": (w + rng.randint(1, 5)) * inB, "tight": w * inB, "zero": 0,
                           "short": (w // 2) * inB, "big": (w + 40) * inB}[kind]
             need = ((h - 1) * stride + w * inB) if (w and h) else 0
-            buf = bytes(rng.getrandbits(8) for _ in range(need + rng.choice([0, 0, 5])))
+            buf = rng.randbytes(need + rng.choice([0, 0, 5]))
             lines.append("px %s %d %d %d" % (buf.hex() or "-", w, h, stride))
             npx += w * h
     return "\n".join(lines) + "\n", npx
@@ -504,8 +504,20 @@ def build_cases(ctx):
         c = rand_wf(rng, rng.choice([8, 16, 32]), rng.randint(0, 1)) if k else mk(32, 0, (8, 8, 8), (0, 8, 16), depth=24)
         sc, n = script_for(rng, s, c, rng.randint(0, 1), tier)
         add(sc, n, True, "server24", (s, c, k), finding=FINDING_24)
-    # 8. 24 bpp clients behind single tables and identical 24 bpp formats (outside the quantifier:
-    #    exact comparison + oracle; needs -fno-sanitize=alignment, see run())
+    # 8. 24 bpp CLIENTS behind single tables and identical 24 bpp formats (outside the property's
+    #    quantifier but covered by pixel_components): exact comparison + oracle.  tableinit24.c fills
+    #    its 3-byte entries with misaligned 4-byte stores, so this stream runs on a harness built
+    #    with -fno-sanitize=alignment (everything else of ASan/UBSan stays on).
+    n24c = 0 if tier == "quick" else 30     # thorough tier only: needs a second library build
+    for k in range(n24c):
+        if k == 0:
+            s = mk(24, host, (8, 8, 8), (16, 8, 0)); c = s      # identical -> rfbTranslateNone
+        else:
+            s = rand_wf(rng, rng.choice([8, 16]), host)
+            c = rand_wf(rng, 24, rng.randint(0, 1))
+        sc, n = script_for(rng, s, c, 0, tier, full16=(k % 3 == 1))
+        add(sc, n, True, "client24", (s, c, k))
+        cases[-1]["noalign"] = True
     return cases
 
 
@@ -552,7 +564,8 @@ def run(ctx):
             "bits_in": {}, "bits_out": {}, "area": {}, "set_via": {}, "pixels": 0}
     if ctx.replay:
         rec = json.load(open(ctx.replay))
-        cases = [{"script": "\n".join(rec.get("script", [])) + "\n", "npx": 0,
+        lines = rec.get("script") or (rec.get("first_disagreement") or {}).get("script") or rec.get("ops") or []
+        cases = [{"script": "\n".join(lines) + "\n", "npx": 0,
                   "checked": rec.get("checked", True), "tag": "replay", "key": "replay",
                   "finding": rec.get("finding")}]
     else:
@@ -568,8 +581,13 @@ def run(ctx):
                           "tag": "corpus", "key": p, "finding": fid})
         cases += build_cases(ctx)
 
+    h_noalign = None
+    if any(c.get("noalign") for c in cases):
+        h_noalign = ctx.harness("c10", extra=("-fno-sanitize=alignment",))
+
     def one(c):
-        return common.compare_streams(ctx, c["script"], h, d, "translate." + c["tag"], timeout=300)
+        return common.compare_streams(ctx, c["script"], h_noalign if c.get("noalign") else h, d,
+                                      "translate." + c["tag"], timeout=300)
 
     results = common.pmap(one, cases)
     evals, distinct = 0, set()
